@@ -2,6 +2,7 @@ import vlib
 
 class P(vlib.Prop):
     id = "C12"
+    watch = ("pkg/build/oci/index.go", "pkg/build/oci/image.go", "pkg/build/types/types.go", "pkg/build/types/image_configuration.go")
     rule = ("bundle stage: the real oci.BuildIndex over 1/2/3/9 architectures, 1-3 layers per image and tag lists whose lengths are solved so that "
             "len(manifest.json) mod 512 takes chosen residues (quick: 0,1,2,7,100,255,256,257,400,505,506,509,510,511 + 10 seeded; thorough: all 512), "
             "first case = replay of fixed defect 4f724ff (residue 0); every bundle is re-read with archive/tar to its end, every digest/size/diff-id is recomputed "
@@ -13,6 +14,7 @@ class P(vlib.Prop):
         dict(name="bundle", cmd="c12", args=lambda t, s: ["-stage", "bundle"]),
         dict(name="artifacts", cmd="c12", args=lambda t, s: ["-stage", "artifacts"]),
         dict(name="config", cmd="c12", args=lambda t, s: ["-stage", "config"]),
+        dict(name="scan", cmd="c12", args=lambda t, s: ["-stage", "scan"]),
     )
     assumptions = (
         "descriptor digests/sizes, diff-ids, JSON and tar encodings are computed by go-containerregistry / cosign / archive/tar and are outside the model: they are re-read and recomputed by the harness (exploration, not proof)",
